@@ -1,12 +1,182 @@
-(* C12 -- property theorems (statements, `exact <lemma>`, non-vacuity, Print Assumptions only). *)
+(* C12 -- property theorems. This file holds ONLY statements, `exact <lemma>`, non-vacuity
+   examples and Print Assumptions, so that the statements cannot be weakened quietly.
+
+   known / enc / encp / dec are universally quantified: the theorems hold for EVERY format table and
+   EVERY codec; where the standard-library codecs matter the hypothesis is spelled out
+   (dec f m (enc f m b) = DOk b).  The format table of the tree under test enters through the
+   generated TyphonGen.C12_formats.known_compressions. *)
 From Coq Require Import ZArith List Bool String Ascii.
 From Typhon Require Import Model.C12_compress Proofs.C12_compress.
 From TyphonGen Require Import C12_formats.
 Import ListNotations.
 Open Scope Z_scope.
 
-Theorem advertised_formats : forall f, In f advertised ->
-  knownb known_compressions (s2l f) = true /\ writer_of (s2l f) <> WNone.
-Proof. intros f H. repeat (destruct H as [<-|H]; [vm_compute; split; [reflexivity|discriminate]|]). destruct H. Qed.
+(* gz, bz2, zip and xz are all keys of _known_compressions, nothing else is, and each of the four has
+   a writer branch in compress_as.  (This is the statement that fails on a tree whose table says
+   '.xz'.)  Stated on the TRANSLATED table. *)
+Theorem advertised_formats : forall f : str,
+  knownb known_compressions f = is_adv f /\ (is_adv f = true -> writer_of f <> WNone).
+Proof.
+  intro f. split; [|apply is_adv_writer].
+  unfold is_adv, knownb, known_compressions, advertised. cbn [existsb].
+  repeat match goal with |- context [str_eqb ?a ?b] => destruct (str_eqb a b) end; reflexivity.
+Qed.
+
+(* However a compress block is left -- normally, or by an exception when creating the temporary
+   directory, in the caller's block (before, amid or after writing), when compress_as opens the
+   temporary file or the target, wraps it, copies (after any number of blocks) or closes -- the
+   temporary directories and files alive afterwards are exactly those alive before. *)
+Theorem no_debris_compress : forall known enc encp st name fmtarg b (fault : cfault),
+  let r := run_compress known enc encp st name fmtarg b fault in
+  tdirs (c_st r) = tdirs st /\ tfiles (c_st r) = tfiles st.
+Proof. exact compress_no_debris. Qed.
+
+(* The same for decompress, for every fault point (creating the copy, opening the archive, a
+   missing / truncated / corrupted archive -- any result of `dec` --, the copy after any number of
+   blocks, closing, the caller's block) ... *)
+Theorem no_debris_decompress : forall known dec st name target (fault : dfault),
+  let r := run_decompress known dec st name target fault in
+  tdirs (d_st r) = tdirs st /\ tfiles (d_st r) = tfiles st.
+Proof. exact decompress_no_debris. Qed.
+
+(* ... and a copy under a name chosen by the caller (target=) is gone as well, *)
+Theorem decompressed_copy_gone : forall known dec st name t (fault : dfault),
+  known (fmt_of_name name) = true -> fault <> DMktemp ->
+  flook t (files (d_st (run_decompress known dec st name (Some t) fault))) = None.
+Proof. exact decompress_copy_gone. Qed.
+
+(* ... while every other file, the archive included, keeps its bytes. *)
+Theorem decompress_touches_nothing_else : forall known dec st name target (fault : dfault) p,
+  target <> Some p ->
+  flook p (files (d_st (run_decompress known dec st name target fault))) = flook p (files st).
+Proof. exact decompress_others_untouched. Qed.
+
+(* An exception inside a compress block (or while the temporary directory is created) creates no
+   target file and leaves an existing one -- indeed every user-visible file -- byte for byte as it was.
+   The format must be one the table knows: a name that is passed through is written by the caller
+   directly. *)
+Theorem target_untouched : forall known enc encp st name fmtarg b j,
+  known (eff_fmt name fmtarg) = true ->
+  let r := run_compress known enc encp st name fmtarg b (CBody j) in
+  files (c_st r) = files st /\ c_out r = Raised.
+Proof. exact compress_body_fault. Qed.
+
+Theorem target_untouched_mkdtemp : forall known enc encp st name fmtarg b,
+  known (eff_fmt name fmtarg) = true ->
+  let r := run_compress known enc encp st name fmtarg b CMkdtemp in
+  c_st r = st /\ c_out r = Raised /\ c_yield r = YNone.
+Proof. exact compress_mkdtemp_fault. Qed.
+
+(* compress never changes a file other than its target, whatever happens *)
+Theorem compress_touches_nothing_else : forall known enc encp st name fmtarg b (fault : cfault) p,
+  p <> name ->
+  flook p (files (c_st (run_compress known enc encp st name fmtarg b fault))) = flook p (files st).
+Proof. intros known enc encp. exact (compress_others_untouched known enc encp). Qed.
+
+(* An undisturbed block stores, under the name, the complete archive of exactly the bytes written, in
+   the format requested by suffix or fmt= (any name: several dots, directories with dots). *)
+Theorem stored_file_is_archive : forall known enc encp st name fmtarg b,
+  let fmt := eff_fmt name fmtarg in
+  known fmt = true -> writer_of fmt <> WNone ->
+  let r := run_compress known enc encp st name fmtarg b CNone in
+  c_out r = Done /\ c_yield r = YTemp /\
+  files (c_st r) = fwrite name (enc fmt (member_c name fmt) b) (files st).
+Proof. exact compress_stores. Qed.
+
+(* The member name written into a zip archive is the one decompress asks for, for every name whose
+   suffix is non-empty: os.path.splitext / basename / lstrip / endswith modelled on character lists. *)
+Theorem zip_member_name : forall p, fmt_of_name p <> [] -> member_c p (fmt_of_name p) = member_d p.
+Proof. exact member_agree. Qed.
+
+(* Round trip.  For any codec with dec (enc b) = b, any state, name, content, tmpdir/target choice
+   (target different from the archive): compress then decompress reads back exactly the bytes
+   written, the stored file decodes to them, no temporary entry remains, the copy is gone and the
+   archive is still there. *)
+Theorem roundtrip : forall known enc encp dec,
+  (forall f m b, dec f m (enc f m b) = DOk b) ->
+  forall st name fmtarg target b,
+  let fmt := fmt_of_name name in
+  known fmt = true -> writer_of fmt <> WNone ->
+  (fmtarg = None \/ fmtarg = Some fmt) -> target <> Some name ->
+  let r1 := run_compress known enc encp st name fmtarg b CNone in
+  let r2 := run_decompress known dec (c_st r1) name target DNone in
+  c_out r1 = Done /\
+  dec fmt (member_d name) (match flook name (files (c_st r1)) with Some x => x | None => [] end) = DOk b /\
+  d_out r2 = Done /\ d_read r2 = Some b /\
+  tdirs (d_st r2) = tdirs st /\ tfiles (d_st r2) = tfiles st /\
+  flook name (files (d_st r2)) = flook name (files (c_st r1)) /\
+  (forall t, target = Some t -> flook t (files (d_st r2)) = None).
+Proof. exact roundtrip. Qed.
+
+(* ... in particular for the four advertised suffixes with the table of the tree under test *)
+Theorem roundtrip_advertised : forall enc encp dec,
+  (forall f m b, dec f m (enc f m b) = DOk b) ->
+  forall st name target b, is_adv (fmt_of_name name) = true -> target <> Some name ->
+  let r1 := run_compress (knownb known_compressions) enc encp st name None b CNone in
+  let r2 := run_decompress (knownb known_compressions) dec (c_st r1) name target DNone in
+  d_out r2 = Done /\ d_read r2 = Some b /\ tdirs (d_st r2) = tdirs st /\ tfiles (d_st r2) = tfiles st.
+Proof.
+  intros enc encp dec H st name target b A NT.
+  destruct (advertised_formats (fmt_of_name name)) as [K W]. rewrite A in K.
+  destruct (roundtrip (knownb known_compressions) enc encp dec H st name None target b K (W A)
+              (or_introl eq_refl) NT) as (_ & _ & O & R & D1 & D2 & _).
+  repeat split; assumption.
+Qed.
+
+(* Names without a compression suffix are passed through untouched: the caller gets the name itself,
+   no temporary entry is ever created, the bytes land in / come from the named file. *)
+Theorem passthrough_compress : forall known enc encp st name fmtarg b (fault : cfault),
+  known (eff_fmt name fmtarg) = false ->
+  let r := run_compress known enc encp st name fmtarg b fault in
+  c_yield r = YName /\ c_during r = ntemps st /\
+  (fault = CNone -> c_out r = Done /\ files (c_st r) = fwrite name b (files st)).
+Proof. exact compress_passthrough. Qed.
+
+Theorem passthrough_decompress : forall known dec st name target (fault : dfault),
+  known (fmt_of_name name) = false ->
+  let r := run_decompress known dec st name target fault in
+  d_yield r = YName /\ d_st r = st /\ (fault = DNone -> d_read r = flook name (files st)).
+Proof. exact decompress_passthrough. Qed.
+
+(* non-vacuity: the codec hypothesis is satisfiable (the codec used to run the model) *)
+Theorem codec_hypothesis_satisfiable : forall f m b, toy_dec f m (toy_enc f m b) = DOk b.
+Proof. exact toy_codec_ok. Qed.
+
+(* non-vacuity: a concrete history.  An existing file, a zip name with several dots inside a
+   directory with a dot, three blocks: the round trip reads them back, the member is "x.y", a fault
+   in the block leaves the old bytes, a copy fault leaves no temporary entry; "plain.txt" and ".gz"
+   are passed through. *)
+Example nonvacuous :
+  let known := knownb advertised in
+  let name := s2l "sub.dir/x.y.zip" in
+  let st := mkSt [(name, [7; 7])] [(5, Some [9])] [(6, [8])] 10 in
+  let r1 := run_compress known toy_enc toy_encp st name None [1; 2; 3] CNone in
+  let r2 := run_decompress known toy_dec (c_st r1) name (Some (s2l "copy")) DNone in
+  let r3 := run_compress known toy_enc toy_encp st name None [1; 2; 3] (CBody (Some 2%nat)) in
+  let r4 := run_compress known toy_enc toy_encp st name None [1; 2; 3] (CCopy 1) in
+  known (fmt_of_name name) = true /\ writer_of (fmt_of_name name) = WZip /\
+  member_d name = s2l "x.y" /\ member_c name (s2l "zip") = s2l "x.y" /\
+  c_during r1 = 3 /\ d_read r2 = Some [1; 2; 3] /\ d_during r2 = 2 /\
+  tdirs (d_st r2) = tdirs st /\ tfiles (d_st r2) = tfiles st /\ flook (s2l "copy") (files (d_st r2)) = None /\
+  flook name (files (c_st r3)) = Some [7; 7] /\ c_out r3 = Raised /\ tdirs (c_st r3) = tdirs st /\
+  c_out r4 = Raised /\ tdirs (c_st r4) = tdirs st /\
+  decode_target toy_dec (s2l "zip") name (files (c_st r4)) = Some [1] /\
+  known (fmt_of_name (s2l "plain.txt")) = false /\ known (fmt_of_name (s2l ".gz")) = false /\
+  known (fmt_of_name (s2l "a.tar.gz")) = true.
+Proof. vm_compute. repeat split. Qed.
 
 Print Assumptions advertised_formats.
+Print Assumptions no_debris_compress.
+Print Assumptions no_debris_decompress.
+Print Assumptions decompressed_copy_gone.
+Print Assumptions decompress_touches_nothing_else.
+Print Assumptions target_untouched.
+Print Assumptions target_untouched_mkdtemp.
+Print Assumptions compress_touches_nothing_else.
+Print Assumptions stored_file_is_archive.
+Print Assumptions zip_member_name.
+Print Assumptions roundtrip.
+Print Assumptions roundtrip_advertised.
+Print Assumptions passthrough_compress.
+Print Assumptions passthrough_decompress.
+Print Assumptions codec_hypothesis_satisfiable.
